@@ -79,6 +79,7 @@ pub fn run_c07(ctx: &mut Ctx) {
             ctx.eval(Some(history_hash(&sim)));
         }
     });
+    super::enumprops::short_term(ctx, sim::M_C07);
 }
 
 pub fn run_c08(ctx: &mut Ctx) {
@@ -114,6 +115,7 @@ pub fn run_c08(ctx: &mut Ctx) {
             ctx.eval(Some(history_hash(&sim)));
         }
     });
+    super::enumprops::long_term(ctx, sim::M_C08);
 }
 
 pub fn run_c13(ctx: &mut Ctx) {
@@ -157,6 +159,8 @@ pub fn run_c13(ctx: &mut Ctx) {
             ctx.eval(Some(history_hash(&sim)));
         }
     });
+    super::enumprops::short_term(ctx, sim::M_C13);
+    super::enumprops::long_term(ctx, sim::M_C13);
 }
 
 // ---------------------------------------------------------------------------------------
@@ -292,4 +296,5 @@ pub fn run_c10(ctx: &mut Ctx) {
             ctx.eval(Some(history_hash(&sim)));
         }
     });
+    super::enumprops::transport(ctx, sim::M_C10);
 }
